@@ -13,6 +13,7 @@
 package lexer
 
 import (
+	"errors"
 	"strings"
 
 	"github.com/paulsonkoly/calc/types/token"
@@ -48,6 +49,12 @@ func (l *Lexer) Next() bool {
 		if c, s, err = l.nextRune(); err != nil {
 			l.Err = err
 			return false
+		}
+
+		if c == EOF && s != 0 {
+			// a NUL character in the input is not the end of the input
+			l.Err = errors.New("Lexer: unexpected NUL character")
+			return true
 		}
 
 		str := st(c)
